@@ -231,8 +231,9 @@ def run_check(prop, module, tier, seed):
     if not ok_prop:
         errs = [l for l in log_prop.splitlines() if "error" in l][:6]
         broken.append(f"lake build MySensors.Properties.{prop} failed: " + " | ".join(errs))
-    prop_file = os.path.join(LEAN, "MySensors", "Properties", f"{prop}.lean")
-    stated = theorems_in(prop_file)
+    stated = []
+    for prop_file in sorted(glob.glob(os.path.join(LEAN, "MySensors", "Properties", f"{prop}*.lean"))):
+        stated += theorems_in(prop_file)
     required = list(getattr(module, "THEOREMS", []))
     names = list(dict.fromkeys(required + stated))
     obligations = len(names)
